@@ -239,7 +239,7 @@ func runC08(ctx *h.Ctx) int {
 					return
 				}
 				interp := ref.New(in.body, rp.AutoVars)
-				vm := &asm.VM{F: f, Sec: sec}
+				vm := &asm.VM{F: f, Sec: sec, UserTargets: userTargetsOf(rp)}
 				// second witness: the same body compiled as a script statement on its own
 				alone := &spec.Program{AutoVars: rp.AutoVars, Switches: rp.Switches}
 				alone.Items = []spec.Item{&spec.Script{ID: 1 << 30, Scope: spec.ScopeLocal, Name: in.label, Body: in.body}}
@@ -249,7 +249,7 @@ func runC08(ctx *h.Ctx) int {
 				if ares.OK() {
 					f2 := asm.Parse(ares.Out)
 					if sec2, err := f2.SectionOf(in.label, boundaryOf(alone, f2)); err == nil {
-						vm2 = &asm.VM{F: f2, Sec: sec2}
+						vm2 = &asm.VM{F: f2, Sec: sec2, UserTargets: userTargetsOf(rp)}
 					}
 				}
 				for si := 0; si < ctx.N(5, 12); si++ {
@@ -292,6 +292,7 @@ func runC08(ctx *h.Ctx) int {
 		_ = maps
 		k.Sample("mapscripts", pr.Src)
 	})
+	rejectGuard(ctx, 0.4)
 	return ctx.Finish(
 		"mapscripts statements with 0..8 entries mixing plain (T: Label), inline (T { body }) and table (T [ var, value: Label | var, value { body } ]) entries in any order, 0..6 rows, multi-token vars/values, both scopes; inline bodies with control flow, inline text and poryswitch. Oracle: header lists plain+inline entries in source order, then table entries in source order, then .byte 0; each table label defined once, local, rows in source order with the written var/value, then .2byte 0; every inline label (read from the header/table, not from a naming rule) defined once and local; VM trace from each inline label equals the reference run of the body and the VM trace of the same body compiled as a script statement. distinct = entry-kind/row-kind signature",
 		ctx.N(300, 3000),
